@@ -976,6 +976,7 @@ func collectStrings(pl *core.Payload, ics *world.ICS20) (b []string, i []string)
 type worldRunner struct {
 	pinFirst bool // the next history begins with the witness of open finding 17
 	lastOps  []world.Op // C19: the previous case's history, replayed on a discarded branch between two replays
+	dustNext  bool      // the next history (after the pinned one) tries to occupy the dust collector's address first
 	sweepNext int       // >= 0: the next (route, spoil class) pair of the sweep at the head of the family; -1: none
 	swap bool // the swap controller is registered on the instrumented instance
 	w   *world.W
